@@ -87,7 +87,7 @@ def verdict(ev, T):
 
 class GC(Sub):
     name = "gc"
-    examples = {"quick": 2000, "thorough": 50000}
+    examples = {"quick": 2000, "thorough": 16000}
     shards = {"quick": 10, "thorough": 16}
     rule = RULE
 
